@@ -115,7 +115,7 @@ def gen_entries(sel, tier):
     """entries: A, B : A, then B re-opened (same or other base), C : B; bodies vary"""
     stmts = [('class', 'A', None, body_opt([1, 2, 5, 6][sel('k0', 4)] if tier == 'quick' else sel('k0', NBODY), 0)), ('class', 'B', 'A', body_opt([1, 2, 3, 4, 6, 7][sel('k1', 6)] if tier == 'quick' else sel('k1', NBODY), 1)),
              ('class', 'B', [None, 'A'][sel('rb', 2)], body_opt(sel('k2', NBODY), 2))]
-    if tier != 'quick': stmts.append(('class', 'C', 'B', body_opt(sel('k3', NBODY), 3)))
+    if tier != 'quick': stmts.append(('class', 'C', 'B', body_opt([0, 2, 3, 4][sel('k3', 4)], 3)))
     else: stmts.append(('class', 'C', 'B', []))
     return split_loads(stmts, 2 if tier == 'quick' else sel('split', 3))
 def gen_nested(sel, tier):
